@@ -508,6 +508,14 @@ func TestC01(t *testing.T) {
 		for i := 0; i < nD; i++ {
 			w.addAccount(20+i, false, rapid.Bool().Draw(rt, "dishonestRegistered"))
 		}
+		if rapid.IntRange(0, 3).Draw(rt, "ownerHolds") == 0 { // the owner of the files keeps replicas itself, like any other holder
+			w.accounts = append(w.accounts, w.owner)
+			w.holders[w.owner.Bech] = true
+			if rapid.Bool().Draw(rt, "ownerRegistered") {
+				must2(w.initProvider(w.owner, "https://owner.ownerdom.net"))
+			}
+			w.logf("the owner %s is one of the holders", short(w.owner.Bech))
+		}
 		busy := rapid.IntRange(0, 2).Draw(rt, "everybodyProvesFirst") == 0
 		w.setParams(func(p *storagetypes.Params) {
 			p.AttestFormSize = rapid.Int64Range(1, 5).Draw(rt, "formSize")
